@@ -699,3 +699,89 @@ VARIANTS += [
  dict(name='thumbprints-dropped-for-long-chains', file=N, expect='flagged(annotations/thumbprints)',
       find='\tval, err := json.Marshal(thumbprints)\n', replace='\tif len(thumbprints) > 4 {\n\t\tthumbprints = nil\n\t}\n\tval, err := json.Marshal(thumbprints)\n'),
 ]
+
+# ---- fifth pass -------------------------------------------------------------------------------------------------
+# class "standard-library equivalent / helper for make + copy loop": the union map is born as a copy of the annotations
+# handed in (maps.Clone with the nil case replaced by a fresh empty map), inline or in a helper
+def born(name, expect, decl, fn=None):
+    edits = [imp('maps'), (N, MAKE_LINE + COPY_LOOP, decl)]
+    if fn:
+        edits.append(with_fn(fn))
+    return dict(name=name, expect=expect, edits=edits)
+
+CLONE = '\tannotations := maps.Clone(desc.Annotations)\n'
+KEEP_CLONE = '\t_ = maps.Clone[map[string]string]\n'
+COPY_FN_GUARD = '''func copyAnnotations(src map[string]string, extra int) map[string]string {
+%s	out := maps.Clone(src)
+	if out == nil {
+		out = make(map[string]string, extra)
+	}
+	return out
+}
+'''
+COPY_FN_LOOP = '''func copyAnnotations(src map[string]string, extra int) map[string]string {
+	out := make(map[string]string, len(src)+extra)
+	for k, v := range src {
+%s		out[k] = v
+	}
+	return out
+}
+'''
+COPY_FN_TWO = '''func copyAnnotations(src map[string]string, extra int) map[string]string {
+	if %s {
+		return make(map[string]string, extra)
+	}
+	return maps.Clone(src)
+}
+'''
+VIA_FN = '\tannotations := copyAnnotations(desc.Annotations, len(userMetadata))\n'
+
+VARIANTS += [
+ born('union-clone-nil-replaced', 'silent', CLONE + '\tif annotations == nil {\n\t\tannotations = make(map[string]string, len(userMetadata))\n\t}\n'),
+ born('union-clone-empty-replaced', 'silent', CLONE + '\tif len(annotations) == 0 {\n\t\tannotations = map[string]string{}\n\t}\n'),
+ born('union-clone-or-make-by-source', 'silent',
+      '\tvar annotations map[string]string\n\tif desc.Annotations != nil {\n\t\tannotations = maps.Clone(desc.Annotations)\n\t} else {\n\t\tannotations = make(map[string]string, len(userMetadata))\n\t}\n'),
+ born('union-clone-in-helper', 'silent', VIA_FN, COPY_FN_GUARD % ''),
+ born('union-copy-loop-in-helper', 'silent', VIA_FN + KEEP_CLONE, COPY_FN_LOOP % ''),
+ born('union-clone-in-helper-two-returns', 'silent', VIA_FN, COPY_FN_TWO % 'len(src) == 0'),
+ # broken counterparts
+ born('union-clone-bare', 'flagged(merge/fresh-union)', CLONE),
+ born('union-clone-replaced-also-for-many-pairs', 'flagged(merge/fresh-union)',
+      CLONE + '\tif annotations == nil || len(userMetadata) > 4 {\n\t\tannotations = make(map[string]string, len(userMetadata))\n\t}\n'),
+ born('union-clone-replaced-when-not-nil', 'flagged(merge/fresh-union)',
+      CLONE + '\tif annotations != nil {\n\t\tannotations = make(map[string]string, len(userMetadata))\n\t}\n'),
+ born('union-clone-of-metadata', 'flagged(merge/fresh-union)',
+      '\tannotations := maps.Clone(userMetadata)\n\tif annotations == nil {\n\t\tannotations = make(map[string]string)\n\t}\n'),
+ born('union-clone-in-helper-drops-large-sets', 'flagged(merge/fresh-union)', VIA_FN,
+      COPY_FN_GUARD % '\tif len(src) > 8 {\n\t\treturn map[string]string{}\n\t}\n'),
+ born('union-clone-in-helper-handed-metadata', 'flagged(merge/fresh-union)',
+      '\tannotations := copyAnnotations(userMetadata, len(desc.Annotations))\n', COPY_FN_GUARD % ''),
+ born('union-copy-loop-in-helper-skips-pairs', 'flagged(merge/fresh-union)', VIA_FN + KEEP_CLONE,
+      COPY_FN_LOOP % '\t\tif v == "" {\n\t\t\tcontinue\n\t\t}\n'),
+ born('union-clone-in-helper-two-returns-wrong-test', 'flagged(merge/fresh-union)', VIA_FN, COPY_FN_TWO % 'extra == 0'),
+]
+
+# class "result object in a new local": the descriptor handed in is copied into further local variables
+VARIANTS += [
+ dict(name='result-in-new-local', file=N, expect='silent', find=TAIL,
+      replace='\tmerged := desc\n\tmerged.Annotations = annotations\n\treturn merged, nil\n}\n'),
+ dict(name='result-in-copy-of-copy', file=N, expect='silent', find=TAIL,
+      replace='\tsigned := desc\n\tsigned.Annotations = annotations\n\tfinal := signed\n\treturn final, nil\n}\n'),
+ dict(name='lookup-in-early-copy', expect='silent',
+      edits=[(N, MAKE_LINE, '\thanded := desc\n' + MAKE_LINE), (N, '\t\tif _, ok := desc.Annotations[k]; ok {\n', '\t\tif _, ok := handed.Annotations[k]; ok {\n')]),
+ dict(name='result-in-new-local-with-clone', expect='silent',
+      edits=[imp('maps'), (N, MAKE_LINE + COPY_LOOP, CLONE + '\tif annotations == nil {\n\t\tannotations = make(map[string]string, len(userMetadata))\n\t}\n'),
+             (N, TAIL, '\tmerged := desc\n\tmerged.Annotations = annotations\n\treturn merged, nil\n}\n')]),
+ # broken counterparts
+ dict(name='result-copy-taken-before-replacement', file=N, expect='flagged(merge/result)', find=TAIL,
+      replace='\tmerged := desc\n\tdesc.Annotations = annotations\n\treturn merged, nil\n}\n'),
+ dict(name='result-copy-overwritten', file=N, expect='flagged(merge/)', find=TAIL,
+      replace='\tmerged := desc\n\tmerged.Annotations = annotations\n\tif len(annotations) > 16 {\n\t\tmerged = desc\n\t}\n\treturn merged, nil\n}\n'),
+ dict(name='result-copy-other-field-written', file=N, expect='flagged(merge/)', find=TAIL,
+      replace='\tmerged := desc\n\tmerged.Annotations = annotations\n\tmerged.Size = 0\n\treturn merged, nil\n}\n'),
+ dict(name='result-built-from-some-fields', file=N, expect='flagged(merge/result)', find=TAIL,
+      replace='\tmerged := ocispec.Descriptor{MediaType: desc.MediaType, Digest: desc.Digest, Annotations: annotations}\n\treturn merged, nil\n}\n'),
+ dict(name='lookup-in-copy-not-yet-filled', expect='flagged(merge/existing-key)',
+      edits=[(N, MAKE_LINE, '\tvar handed ocispec.Descriptor\n' + MAKE_LINE), (N, '\t\tif _, ok := desc.Annotations[k]; ok {\n', '\t\tif _, ok := handed.Annotations[k]; ok {\n'),
+             (N, TAIL, '\thanded = desc\n\tlogger.Debugf("merged into %v", handed.Digest)\n' + TAIL)]),
+]
